@@ -4,7 +4,7 @@
     semantics of the statement - for every state and every number of loop iterations. The validator
     is evaluated in Coq on the REAL instruction list of every generated program. *)
 From Coq Require Import List ZArith Bool Arith Floats.SpecFloat.
-From RB Require Import Generated.Tables Val.Variant Val.Arith2 Lang.Ast Lang.Sem VM.Instr VM.Gen VM.Machine VM.GenProofs RT.Printer.
+From RB Require Import Generated.Tables Val.Variant Val.Arith2 Lang.Ast Lang.Sem VM.Instr VM.Gen VM.Machine VM.GenProofs VM.Loops VM.ForLoops RT.Printer.
 Import ListNotations.
 Local Open Scope nat_scope.
 
@@ -162,6 +162,52 @@ Fixpoint check_stmt (k : nat) (code : list ipos) (pc : nat) (s : stmt) {struct k
                       if arms_check code p pc pend arms (Some (be, le)) && is_label_at code pend p then Some (S pend - pc) else None
                   end
               end
+          end
+      | SFor p v lo hi step body =>
+          let q := snd v in
+          let la := length (gen_expr_casting lo q) in
+          let lh := length (gen_expr_casting hi q) in
+          match etype lo, etype hi with
+          | Some _, Some _ =>
+              match step with
+              | None =>
+                  let l0 := pc + la + 2 + lh + 3 in
+                  match check_block body (l0 + 9) with
+                  | None => None
+                  | Some lb =>
+                      let out := l0 + 9 + lb + 10 in
+                      if slice_is code pc (gen_expr_casting lo q ++ gen_store v p ++ gen_expr_casting hi q ++
+                                           [(ICopyAToC, p); (ILoad (VInteger 1%Z), p); (ICopyAToD, p)]) &&
+                         is_label_at code l0 p && slice_is code (S l0) (for_test v p out) &&
+                         is_label_at code (l0 + 7) p && instr_at code (l0 + 8) (IPushRegisters, p) &&
+                         slice_is code (l0 + 9 + lb) (for_tail v p l0) && is_label_at code out p
+                      then Some (for_len v lo hi lb) else None
+                  end
+              | Some se =>
+                  match etype se with
+                  | None => None
+                  | Some _ =>
+                      let ls := length (gen_expr_casting se q) in
+                      let l0 := pc + la + 2 + lh + 1 + ls + 6 in
+                      match check_block body (l0 + 22) with
+                      | None => None
+                      | Some lb =>
+                          let kz := l0 + 22 + lb + 11 in
+                          let out := l0 + 22 + lb + 13 in
+                          if slice_is code pc (gen_expr_casting lo q ++ gen_store v p ++ gen_expr_casting hi q ++ [(ICopyAToC, p)] ++
+                                               gen_expr_casting se q ++
+                                               [(ICopyAToD, p); (ILoad (VInteger 0%Z), p); (ICopyAToB, p); (ICopyDToA, p);
+                                                (IBin NotEqual, p); (IJumpIfFalse (TAddr kz), p)]) &&
+                             is_label_at code l0 p && slice_is code (S l0) (for_sign v p l0 out) &&
+                             is_label_at code (l0 + 13) p && slice_is code (l0 + 14) (for_test v p out) &&
+                             is_label_at code (l0 + 20) p && instr_at code (l0 + 21) (IPushRegisters, p) &&
+                             slice_is code (l0 + 22 + lb) (for_tail v p l0) &&
+                             is_label_at code kz p && instr_at code (S kz) (IThrowZeroStep, epos se) && is_label_at code out p
+                          then Some (for_step_len v lo hi se lb) else None
+                      end
+                  end
+              end
+          | _, _ => None
           end
       | _ => None
       end
